@@ -146,18 +146,28 @@ pub fn last_backtrace() -> Option<String> {
 }
 
 fn first_repo_frame(bt: &str) -> Option<(String, String)> {
+    // innermost frames inside /repo (up to 4, joined) - for the human-readable description only
     let lines: Vec<&str> = bt.lines().collect();
+    let mut funcs = vec![];
+    let mut first_file = None;
     for i in 0..lines.len() {
         let l = lines[i].trim();
         if let Some(rest) = l.strip_prefix("at ") {
             if let Some(p) = rest.find("/repo/") {
-                let file = rest[p + 6..].split(':').next().unwrap_or("").to_string();
+                let loc = rest[p + 6..].to_string();
+                let file = loc.split(':').next().unwrap_or("").to_string();
                 let func = if i > 0 { lines[i - 1].trim().splitn(2, ": ").nth(1).unwrap_or("").to_string() } else { String::new() };
-                return Some((func, file));
+                if first_file.is_none() {
+                    first_file = Some(file);
+                }
+                funcs.push(format!("{func} [{loc}]"));
+                if funcs.len() >= 4 {
+                    break;
+                }
             }
         }
     }
-    None
+    first_file.map(|f| (funcs.join(" <- "), f))
 }
 
 /// Run `f`, converting an unwind into `PanicInfo`.
